@@ -343,6 +343,18 @@ def evaluate(mod, cases, result, known, proof_problems):
             failures.append((case, io, mo, fails))
         if not agree:
             disagreements.append((case, io, mo, bool(fails)))
+    private_ops = set(getattr(mod, 'PRIVATE_OPS', ()))
+    if private_ops and disagreements:
+        # Ops listed in PRIVATE_OPS observe a PRIVATE intermediate of the code (the value tree a writer builds before it is dumped,
+        # the private tables of a container, a private helper's return value).  Such an observation localises a disagreement that the
+        # public ops of the same run also see; on its own -- every public op of this run agrees and the oracle has nothing to say
+        # about the case -- it only shows that a private representation is not the model's any more, which no user can observe.
+        pub = [d for d in disagreements if not (isinstance(d[0], dict) and d[0].get('op') in private_ops and not d[3])]
+        if not pub:
+            result['private_op_disagreements'] = len(disagreements)
+            print('NOTE: %d disagreement(s) only in ops that observe private intermediates (%s); every public op agrees: not counted' % (
+                len(disagreements), ', '.join(sorted({d[0].get('op') for d in disagreements}))))
+            disagreements = []
     result['evaluations'] = len(cases)
     result['distinct_nontrivial'] = len(distinct)
     result['histogram'] = dict(sorted(hist.items(), key=lambda kv: -kv[1])[:40])
@@ -516,7 +528,7 @@ def write_evidence(mod, tier, seed, result, t0):
         'tables_regenerated_changed': result.get('tables_changed', []),
         'impl_s': result.get('impl_s'), 'model_s': result.get('model_s'),
     }
-    for k in ('leanchecker', 'build_failures', 'driver_fallback', 'table_fallbacks'):
+    for k in ('leanchecker', 'build_failures', 'driver_fallback', 'table_fallbacks', 'private_op_disagreements'):
         if k in result:
             cov[k] = result[k]
     if LINECOV and linecov.available():
